@@ -1,0 +1,9 @@
+//go:build !verif
+
+package fsstore
+
+// Without the "verif" build tag the verification hooks compile to nothing.
+
+const verifEnabled = false
+
+func verifHook(point string, path string) error { return nil }
